@@ -18,7 +18,8 @@ C1  the classify driver's scripted connections through the real handleNewTCPConn
 C2  real concurrent runs (goroutines hammering the real objects, PrintAndReset racing, no gates): per-goroutine event
     totals + every printed line + the final snapshot are judged at quiescence against the conservation laws.
 """
-import json, os, copy, re
+import json, os, copy, re, threading, time
+from concurrent.futures import ThreadPoolExecutor
 import vlib
 import classify_common as cc
 
@@ -26,7 +27,7 @@ PKG_APP = "cmd/application"
 APP_FILES = ["common/vcommon_test.go", "cmd_application/vconn_verif_test.go", "cmd_application/classify_verif_test.go",
              "cmd_application/accounting_verif_test.go"]
 APP_BRIDGE = [("pkg/station/lib", ["pkg_station_lib/bridge_verif.go", "pkg_station_lib/accounting_bridge_verif.go"], "lib")]
-PKG_LIB = "pkg/station/lib"
+PKG_LIB = "pkg/station/lib/."     # same package; the trailing "/." gives its overlay a directory of its own (the app lane overlays the bridge)
 LIB_FILES = ["common/vcommon_test.go", "pkg_station_lib/accounting_verif_test.go"]
 
 # as found measured against an intended law: (cfg, law that must be violated, divergence)
@@ -39,8 +40,47 @@ BROKEN = [("MC_Accounting_broken_gauge.cfg", "GaugeExact"), ("MC_Accounting_brok
           ("MC_Accounting_broken_handler.cfg", None)]
 
 
+_ticket = threading.Lock()
+_count = threading.Lock()
+_go = {PKG_APP: threading.Lock(), PKG_LIB: threading.Lock()}      # one `go test` per package at a time: the overlay directory is per package
+
+
+def tlc(ctx, sdir, module, cfg, count=True, **kw):
+    """ctx.tlc from several threads: starts are spaced (the output file name has millisecond resolution) and the state
+    counters are added under a lock."""
+    with _ticket:
+        time.sleep(0.012)
+    r = ctx.tlc(sdir, module, cfg, count=False, **kw)
+    if count:
+        with _count:
+            ctx.cov["states"] += r["distinct"]
+            ctx.cov["transitions"] += r["generated"]
+    return r
+
+
+def validate(ctx, *a, **kw):
+    with _ticket:
+        time.sleep(0.012)
+    return ctx.validate_traces(*a, **kw)
+
+
+def go_test(ctx, pkg, *a, **kw):
+    with _go[pkg]:
+        return ctx.go_test(pkg, *a, **kw)
+
+
+def crashed(ctx, res, key, what):
+    """A driver run that ended in a Go runtime crash of the code under test (concurrent map access, nil dereference, ...)."""
+    m = re.search(r"^(fatal error: .*|panic: .*)$", res["out"], re.M)
+    if m and "test timed out" not in m.group(1):
+        ctx.violation("%s:crash:%s" % (key, re.sub(r"[^a-z]+", "-", m.group(1).lower())[:60]), "%s crashed: %s" % (what, m.group(1)),
+                      {"out": res["out"][-6000:]})
+        return True
+    return False
+
+
 def must_violate(ctx, sdir, module, cfg, inv):
-    r = ctx.tlc(sdir, module, cfg, timeout=300, workers=4, count=False)
+    r = tlc(ctx, sdir, module, cfg, timeout=300, workers=2, count=False)
     if not r["inv"] or (inv and r["inv"] != inv):
         raise vlib.InfraError("%s should violate %s, TLC says %s" % (cfg, inv or "an invariant", r["inv"]))
     return r["inv"]
@@ -83,15 +123,30 @@ def canon(v):
 
 
 # ------------------------------------------------------------------------------------------------ connStats
+def mc_ok(ctx, sdir, module, cfg, what, workers=6, timeout=1500):
+    r = tlc(ctx, sdir, module, cfg, timeout=timeout, workers=workers)
+    ctx.require_design_ok(r, what)
+    ctx.log("A: %s (%s): %d distinct states, depth %d, %.0fs" % (what, cfg, r["distinct"], r["depth"], r["wall_s"]))
+    return r
+
+
 def stage_a_conn(ctx, sdir, thorough):
-    r = ctx.tlc(sdir, "Accounting.tla", "MC_Accounting_thorough.cfg" if thorough else "MC_Accounting.cfg", timeout=1500, workers=12)
-    ctx.require_design_ok(r, "Accounting as_found")
-    ctx.log("A: as_found object level: %d distinct states, depth %d, %.0fs" % (r["distinct"], r["depth"], r["wall_s"]))
-    for cfg, what in (("MC_Accounting_kon.cfg", "as_found connecting"), ("MC_Accounting_intended.cfg", "intended"),
-                      ("MC_Accounting_intended_kon.cfg", "intended connecting"), ("MC_Accounting_handler.cfg", "handler level")):
-        rr = ctx.tlc(sdir, "Accounting.tla", cfg, timeout=900, workers=8)
-        ctx.require_design_ok(rr, "Accounting " + what)
-        ctx.log("A: %s: %d distinct states, %.0fs" % (what, rr["distinct"], rr["wall_s"]))
+    if thorough:
+        cfgs = [("MC_Accounting_thorough.cfg", "as_found, two connections, two prints"), ("MC_Accounting_intended_thorough.cfg", "intended, two prints")]
+    else:
+        cfgs = [("MC_Accounting.cfg", "as_found, two connections"), ("MC_Accounting_intended.cfg", "intended")]
+    cfgs += [("MC_Accounting_epochs.cfg", "as_found, three prints"), ("MC_Accounting_intended_epochs.cfg", "intended, three prints"),
+             ("MC_Accounting_kon.cfg", "as_found connecting"), ("MC_Accounting_intended_kon.cfg", "intended connecting"),
+             ("MC_Accounting_handler.cfg", "handler level")]
+    for cfg, what in cfgs:
+        mc_ok(ctx, sdir, "Accounting.tla", cfg, "Accounting " + what)
+    ctx.stage("A", invariants_as_found=["TypeOK", "GaugeExact", "NoDoubleCount", "AsnLedger", "OutcomeSum", "AsnSumsEpoch", "QuiescentZero",
+                                        "PrintKeepsGauges"],
+              invariants_intended=["Ledger", "TotalIsSum", "AsnSums", "AsnGaugesNonNeg", "KonGaugeExact", "KonLedger"],
+              invariants_handler=["NoBadCall", "PhaseMatches", "LegalWhenDone", "StatActiveExact", "StatBalanced", "OncePerConn"])
+
+
+def stage_a_nonvacuity(ctx, sdir):
     nonvac = []
     for cfg, inv, what in DIVERGENCES:
         must_violate(ctx, sdir, "Accounting.tla", cfg, inv)
@@ -99,32 +154,39 @@ def stage_a_conn(ctx, sdir, thorough):
     for cfg, inv in BROKEN:
         got = must_violate(ctx, sdir, "Accounting.tla", cfg, inv)
         nonvac.append("%s violates %s" % (cfg, got))
-    ctx.stage("A", invariants_as_found=["TypeOK", "GaugeExact", "NoDoubleCount", "AsnLedger", "OutcomeSum", "AsnSumsEpoch", "QuiescentZero",
-                                        "PrintKeepsGauges"],
-              invariants_intended=["Ledger", "TotalIsSum", "AsnSums", "AsnGaugesNonNeg", "KonGaugeExact", "KonLedger"],
-              invariants_handler=["NoBadCall", "PhaseMatches", "LegalWhenDone", "StatActiveExact", "StatBalanced", "OncePerConn"],
-              nonvacuity=nonvac)
+    for cfg, inv, what in REG_DIVERGENCES:
+        must_violate(ctx, sdir, "RegAccounting.tla", cfg, inv)
+        nonvac.append("as_found violates %s (%s)" % (inv, what))
+    for cfg, inv in REG_BROKEN:
+        must_violate(ctx, sdir, "RegAccounting.tla", cfg, inv)
+        nonvac.append("%s violates %s" % (cfg, inv))
+    ctx.stage("A", nonvacuity=nonvac)
 
 
-def stage_b_conn(ctx, sdir, thorough):
+def gen_conn(ctx, sdir, thorough):
     runs = []
     for tag, cfg in (("exh1", "Gen_Accounting_exh1.cfg"), ("exh2", "Gen_Accounting_exh2t.cfg" if thorough else "Gen_Accounting_exh2.cfg"),
                      ("exhk", "Gen_Accounting_exhkt.cfg" if thorough else "Gen_Accounting_exhk.cfg")):
-        g = ctx.tlc(sdir, "Gen_Accounting.tla", cfg, timeout=1500, workers=8, count=False)
+        g = tlc(ctx, sdir, "Gen_Accounting.tla", cfg, timeout=1500, workers=4, count=False)
         if g["inv"]:
             raise vlib.InfraError("generator %s failed: %s" % (cfg, g["out"][-1500:]))
         runs.append((tag, g))
-    s = ctx.tlc(sdir, "Gen_Accounting.tla", "Gen_Accounting_sim.cfg", timeout=1500, workers=4, count=False,
-                simulate="num=%d" % (600 if thorough else 120), depth=41, deadlock=False, extra=["-seed", str(ctx.seed)])
+    s = tlc(ctx, sdir, "Gen_Accounting.tla", "Gen_Accounting_sim.cfg", timeout=1500, workers=2, count=False,
+            simulate="num=%d" % (600 if thorough else 100), depth=41, deadlock=False, extra=["-seed", str(ctx.seed)])
     runs.append(("sim", s))
     beh = os.path.join(ctx.scratch, "acct_beh.ndjson")
     n = merge_behaviours(ctx, runs, beh)
-    ctx.log("B: behaviours %s" % n)
+    ctx.log("B: connStats behaviours %s" % n)
     if n["exh1"] < 1000 or n["exh2"] < 1000 or n["sim"] < 50:
         raise vlib.InfraError("too few behaviours generated: %s" % n)
+    return beh, n
+
+
+def stage_b_conn(ctx, gen):
+    beh, n = gen
     outp = os.path.join(ctx.scratch, "acct_replay.ndjson")
-    res = ctx.go_test(PKG_APP, APP_FILES, "main", "^TestVerifAcctReplay$", env={"VERIF_IN": beh, "VERIF_OUT": outp},
-                      extra_overlays=APP_BRIDGE, timeout=1500)
+    res = go_test(ctx, PKG_APP, APP_FILES, "main", "^TestVerifAcctReplay$", env={"VERIF_IN": beh, "VERIF_OUT": outp},
+                  extra_overlays=APP_BRIDGE, timeout=1500)
     rows = ctx.read_results(outp)
     summ = [x for x in rows if x.get("kind") == "summary"]
     if not summ:
@@ -139,10 +201,8 @@ def stage_b_conn(ctx, sdir, thorough):
     with open(beh) as f:
         for i, line in enumerate(f):
             b = json.loads(line)
-            sp = any(x.get("split") for x in b)
-            split += sp
-            parked = False
-            mid = False
+            split += any(x.get("split") for x in b)
+            parked = mid = False
             for x in b:
                 if x["a"] == "Print":
                     parked = not x["done"]
@@ -155,6 +215,7 @@ def stage_b_conn(ctx, sdir, thorough):
                 ctx.sample({"stage": "B", "object": "connStats", "behaviour": [fmt_op(x) for x in b]})
     if summ["split_calls"] == 0 or lost == 0:
         raise vlib.InfraError("no behaviour places a counter call inside PrintAndReset: stage B is vacuous")
+    ctx.log("B: connStats replay: %d behaviours, %d steps, %d mismatches" % (summ["behaviours"], summ["steps"], summ["mismatches"]))
     ctx.stage("B", connstats=dict(behaviours=summ["behaviours"], steps=summ["steps"], mismatches=summ["mismatches"], split_calls=summ["split_calls"],
                                   calls_inside_print=lost, with_split_call=split, prints_without_a_line=silent, **n))
     return summ["behaviours"], lost
@@ -241,14 +302,21 @@ KEEP = {"SetDeadline": (), "Read": ("n",), "ReadTimeout": (), "ReadEOF": (), "Ve
 
 
 def handler_trace(world, cases_by_id, rows):
-    """One trace per batch: the connections one after the other, then the snapshot."""
+    """One trace per batch: the connections one after the other (each followed by the real row of its own ASN), then the snapshot."""
     tr, asns, outcomes = [], {"a0"}, {}
     nconn = 0
+    famof = lambda r: "v6" if ":" in world["phantoms"][cases_by_id[r["case"]]["dst"]] else "v4"
+    users, final = {}, {}
+    for r in rows:
+        if "case" in r and not r["geo"]["fail"] and r["geo"]["cc"] != "":
+            users[(famof(r), r["geo"]["asn"])] = users.get((famof(r), r["geo"]["asn"]), 0) + 1
+        elif r.get("kind") == "quiescent":
+            final = {(x["fam"], x["asn"]): x for x in r["st"]["tab"]}
     for r in rows:
         if "case" in r:
             cs = cases_by_id[r["case"]]
             geo = r["geo"]
-            fam = "v6" if ":" in world["phantoms"][cs["dst"]] else "v4"
+            fam = famof(r)
             asns.add(geo["asn"])
             tr.append({"a": "Start", "case": r["case"], "fam": fam, "asn": geo["asn"], "cc": geo["cc"], "occ": r["occ_real"]})
             for e in r["ev"]:
@@ -256,6 +324,10 @@ def handler_trace(world, cases_by_id, rows):
                     tr.append({"a": "Unknown:" + e["a"]})
                     continue
                 tr.append(dict({"a": e["a"]}, **{k: e[k] for k in KEEP[e["a"]]}))
+            if users.get((fam, geo["asn"])) == 1:
+                row = final.get((fam, geo["asn"]))
+                tr.append({"a": "Row", "case": r["case"], "fam": fam, "asn": geo["asn"], "present": row is not None,
+                           "cc": row["cc"] if row else "", "n": row["n"] if row else {}})
             nconn += 1
         elif r.get("kind") == "quiescent":
             tr.append({"a": "Quiescent", "st": r["st"], "active": r["active"], "cases": r["cases"]})
@@ -278,7 +350,8 @@ def outcome_of(rec):
     return "other"
 
 
-def stage_c_handler(ctx, sdir, thorough):
+def handler_go(ctx, thorough):
+    """Runs the batches on the real handler; returns (world, traces, asns, nconn, outcomes)."""
     w = handler_world()
     nb = 3 if thorough else 1
     traces, allasns, nconn, outcomes = [], set(), 0, {}
@@ -291,10 +364,12 @@ def stage_c_handler(ctx, sdir, thorough):
             f.write(json.dumps({"world": w}) + "\n")
             for c in cases:
                 f.write(json.dumps(c) + "\n")
-        res = ctx.go_test(PKG_APP, APP_FILES, "main", "^TestVerifAcctHandler$", env={"VERIF_IN": inp, "VERIF_OUT": outp, "VERIF_PAR": 450},
-                          extra_overlays=APP_BRIDGE, timeout=900)
-        rows = ctx.read_results(outp)
+        res = go_test(ctx, PKG_APP, APP_FILES, "main", "^TestVerifAcctHandler$", env={"VERIF_IN": inp, "VERIF_OUT": outp, "VERIF_PAR": 450},
+                      extra_overlays=APP_BRIDGE, timeout=900)
+        rows = ctx.read_results(outp) if os.path.exists(outp) else []
         if not any(r.get("kind") == "summary" for r in rows):
+            if crashed(ctx, res, "handler", "the station's connection handling"):
+                return None
             raise vlib.InfraError("handler driver did not finish:\n" + res["out"][-3000:])
         byid = {c["id"]: c for c in cases}
         tr, asns, n = handler_trace(w, byid, rows)
@@ -314,9 +389,21 @@ def stage_c_handler(ctx, sdir, thorough):
     for need in ("match", "timeout", "peer-close", "transport-error", "uncounted"):
         if outcomes.get(need, 0) == 0:
             raise vlib.InfraError("handler cases cover no %s outcome: %s" % (need, outcomes))
+    return traces, allasns, nconn, outcomes
+
+
+def write_trace_cfg(sdir, asns):
     tmpl = open(os.path.join(sdir, "Trace_Accounting.cfg.tmpl")).read()
-    open(os.path.join(sdir, "Trace_Accounting.cfg"), "w").write(tmpl.replace("@ASNS@", ", ".join('"%s"' % a for a in sorted(allasns))))
-    ok, reached, total, r = ctx.validate_traces(sdir, "Trace_Accounting.tla", "Trace_Accounting.cfg", traces, timeout=1500)
+    open(os.path.join(sdir, "Trace_Accounting.cfg"), "w").write(tmpl.replace("@ASNS@", ", ".join('"%s"' % a for a in sorted(asns))))
+
+
+def stage_c_handler(ctx, sdir, hgo):
+    if hgo is None:
+        return 0
+    traces, allasns, nconn, outcomes = hgo
+    nb = len(traces)
+    write_trace_cfg(sdir, allasns)
+    ok, reached, total, r = validate(ctx, sdir, "Trace_Accounting.tla", "Trace_Accounting.cfg", traces, timeout=1500)
     ctx.log("C1: %d connections in %d batches, %d events, accepted=%s reached=%d, outcomes %s" % (nconn, nb, total, ok, reached, outcomes))
     flat = []
     for t in traces:
@@ -325,13 +412,17 @@ def stage_c_handler(ctx, sdir, thorough):
     if not ok:
         bad = flat[reached] if reached < len(flat) else None
         # the connection the offending event belongs to
-        start = reached
+        start = min(reached, len(flat) - 1)
         while start > 0 and flat[start].get("a") not in ("Start", "Reset"):
             start -= 1
         case = flat[start].get("case", "?")
         if r["inv"]:
             ctx.violation("handler:invariant:%s" % r["inv"], "the real handler's event log reaches a state violating %s (connection %s)" % (r["inv"], case),
                           {"case": case, "events": flat[start:reached + 1][:80], "tlc": r["out"][-2000:]})
+        elif bad and bad["a"] == "Row":
+            ctx.violation("handler:calls-differ", "connection %s: the counter calls the real handler made (its own ASN row: %s) are not the calls of the "
+                          "handler steps its event log selects" % (case, json.dumps(bad["n"], sort_keys=True)),
+                          {"case": case, "row": bad, "events": flat[start:reached + 1][:80]})
         elif bad and bad["a"] == "Quiescent":
             ctx.violation("handler:counters-differ", "after %d real connections the real connStats / singleton gauge differ from what the handler steps "
                           "selected by the event logs add up to" % bad["cases"], {"snapshot": bad, "tlc": r["out"][-2000:]})
@@ -357,31 +448,37 @@ def stage_c_handler(ctx, sdir, thorough):
                     break
             if not done:
                 raise vlib.InfraError("nothing to corrupt for the binding demonstration (%s)" % kind)
-            ok2, reached2, _, _ = ctx.validate_traces(sdir, "Trace_Accounting.tla", "Trace_Accounting.cfg", bad, timeout=900)
+            ok2, reached2, _, _ = validate(ctx, sdir, "Trace_Accounting.tla", "Trace_Accounting.cfg", bad, timeout=900)
             if ok2:
                 raise vlib.InfraError("binding is vacuous: handler trace with a corrupted %s accepted" % kind)
             ctx.stage("C1", **{"corrupted_%s_rejected_at" % kind: reached2})
     ctx.stage("C1", connections=nconn, batches=nb, events=total, accepted=ok, outcomes=outcomes, asn_rows=len(allasns))
-    return nconn, len(outcomes)
+    return nconn
 
 
-def stage_c_hammer(ctx, sdir, thorough):
+def hammer_go(ctx, thorough):
     outp = os.path.join(ctx.scratch, "acct_hammer.ndjson")
-    res = ctx.go_test(PKG_APP, APP_FILES, "main", "^TestVerifAcctHammer$", extra_overlays=APP_BRIDGE, timeout=600,
-                      env={"VERIF_OUT": outp, "VERIF_ROUNDS": 30 if thorough else 9, "VERIF_CONNS": 6000 if thorough else 3000})
+    res = go_test(ctx, PKG_APP, APP_FILES, "main", "^TestVerifAcctHammer$", extra_overlays=APP_BRIDGE, timeout=600,
+                  env={"VERIF_OUT": outp, "VERIF_ROUNDS": 30 if thorough else 9, "VERIF_CONNS": 6000 if thorough else 3000})
     st = ctx.stall_sites(res)
     if st:
         ctx.violation("connstats:hammer:deadlock:%s" % "+".join(st), "PrintAndReset racing with counter calls hung in %s" % ", ".join(st), {"dump": res["out"][-5000:]})
-        return 0
+        return []
+    if crashed(ctx, res, "connstats:hammer", "connStats under concurrent counter calls and PrintAndReset"):
+        return []
     rows = ctx.read_results(outp)
     if not rows:
         raise vlib.InfraError("hammer produced nothing:\n" + res["out"][-3000:])
+    return rows
+
+
+def stage_c_hammer(ctx, sdir, rows):
+    if not rows:
+        return 0
     keys = ("ev", "rep", "cur", "eva", "repa", "cura", "inflight")
     traces = [[dict({"a": "Ledger"}, **{k: r[k] for k in keys})] for r in rows]
-    if not os.path.exists(os.path.join(sdir, "Trace_Accounting.cfg")):
-        tmpl = open(os.path.join(sdir, "Trace_Accounting.cfg.tmpl")).read()
-        open(os.path.join(sdir, "Trace_Accounting.cfg"), "w").write(tmpl.replace("@ASNS@", '"a0"'))
-    ok, reached, total, r = ctx.validate_traces(sdir, "Trace_Accounting.tla", "Trace_Accounting.cfg", traces, timeout=600)
+    write_trace_cfg(sdir, {"a0"})
+    ok, reached, total, r = validate(ctx, sdir, "Trace_Accounting.tla", "Trace_Accounting.cfg", traces, timeout=600)
     unreported = sum(x["unreported"] for x in rows)
     events = sum(sum(x["ev"][f][o] for f in ("v4", "v6") for o in ("found", "reset", "timeout", "closed", "err")) for x in rows)
     ctx.log("C2: %d rounds, %d outcome events, %d prints, accepted=%s; %d outcome events unreported (the as_found lost-update / silent-epoch windows)"
@@ -399,7 +496,7 @@ def stage_c_hammer(ctx, sdir, thorough):
     if ok:
         bad = copy.deepcopy(traces[:1])
         bad[0][0]["repa"]["v4"]["found"] += 1
-        ok2, _, _, _ = ctx.validate_traces(sdir, "Trace_Accounting.tla", "Trace_Accounting.cfg", bad, timeout=300)
+        ok2, _, _, _ = validate(ctx, sdir, "Trace_Accounting.tla", "Trace_Accounting.cfg", bad, timeout=300)
         if ok2:
             raise vlib.InfraError("binding is vacuous: corrupted ledger accepted")
     ctx.stage("C2", connstats=dict(rounds=len(rows), outcome_events=events, prints=sum(x["prints"] for x in rows), rows_printed=sum(x["rows"] for x in rows),
@@ -407,13 +504,137 @@ def stage_c_hammer(ctx, sdir, thorough):
     return len(rows)
 
 
+# ------------------------------------------------------------------------------------------------ Stats / RegistrationStats
+REG_DIVERGENCES = [("MC_RegAccounting_div_lost.cfg", "LedgerPrinted", "R1 an update between a line's loads and Reset() is lost (Stats and RegistrationStats)"),
+                   ("MC_RegAccounting_div_unprinted.cfg", "Ledger", "R2 newBlocklistedPhantomReg is reset but printed nowhere"),
+                   ("MC_RegAccounting_div_outcome.cfg", "RegConservation", "R3 live-phantom and validation drops reach no counter of RegistrationStats"),
+                   ("MC_RegAccounting_div_epochs.cfg", "CrossObject", "R4 RegistrationStats is reset two log lines before Stats: their epochs differ")]
+REG_DIVERGENCES.insert(1, ("MC_RegAccounting_div_maps.cfg", "MapLedger", "R1 (maps) a registration counted between the map listings and their replacement is lost"))
+REG_BROKEN = [("MC_RegAccounting_broken_gauge.cfg", "ActiveExact"), ("MC_RegAccounting_broken_new.cfg", "Breakdowns")]
+
+
+def stage_a_reg(ctx, sdir, thorough):
+    cfgs = [("MC_RegAccounting_thorough.cfg", "as_found, both families") if thorough else ("MC_RegAccounting.cfg", "as_found, two registrations"),
+            ("MC_RegAccounting_epochs.cfg", "as_found, three prints"), ("MC_RegAccounting_intended.cfg", "intended")]
+    if thorough:
+        cfgs.append(("MC_RegAccounting_thorough2.cfg", "as_found, two registrations, two prints"))
+    for cfg, what in cfgs:
+        mc_ok(ctx, sdir, "RegAccounting.tla", cfg, "RegAccounting " + what)
+    ctx.stage("A", reg_invariants_as_found=["TypeOK", "ActiveExact", "TotalsExact", "Breakdowns", "NoDoubleCount", "PrintKeepsGauges"],
+              reg_invariants_intended=["Ledger", "MapLedger", "RegConservation", "CrossObject"])
+
+
+def gen_reg(ctx, sdir, thorough):
+    runs = []
+    for tag, cfg in (("exh1", "Gen_RegAccounting_exh1.cfg"), ("exh2", "Gen_RegAccounting_exh2t.cfg" if thorough else "Gen_RegAccounting_exh2.cfg")):
+        g = tlc(ctx, sdir, "Gen_RegAccounting.tla", cfg, timeout=1500, workers=4, count=False)
+        if g["inv"]:
+            raise vlib.InfraError("generator %s failed: %s" % (cfg, g["out"][-1500:]))
+        runs.append((tag, g))
+    s = tlc(ctx, sdir, "Gen_RegAccounting.tla", "Gen_RegAccounting_sim.cfg", timeout=1500, workers=2, count=False,
+            simulate="num=%d" % (500 if thorough else 100), depth=41, deadlock=False, extra=["-seed", str(ctx.seed)])
+    runs.append(("sim", s))
+    beh = os.path.join(ctx.scratch, "regacct_beh.ndjson")
+    n = merge_behaviours(ctx, runs, beh)
+    ctx.log("B: Stats / RegistrationStats behaviours %s" % n)
+    if n["exh1"] < 500 or n["exh2"] < 1000 or n["sim"] < 50:
+        raise vlib.InfraError("too few behaviours generated: %s" % n)
+    return beh, n
+
+
+def stage_b_reg(ctx, gen):
+    beh, n = gen
+    outp = os.path.join(ctx.scratch, "regacct_replay.ndjson")
+    res = go_test(ctx, PKG_LIB, LIB_FILES, "lib", "^TestVerifRegAcctReplay$", env={"VERIF_IN": beh, "VERIF_OUT": outp}, timeout=1500)
+    rows = ctx.read_results(outp)
+    summ = [x for x in rows if x.get("kind") == "summary"]
+    if not summ:
+        raise vlib.InfraError("Stats / RegistrationStats replay driver did not finish:\n" + res["out"][-3000:])
+    summ = summ[0]
+    for m in [x for x in rows if x.get("kind") == "mismatch"]:
+        d = diff_fields(m["want"], m["got"])
+        ctx.violation("regstats:replay:%s:%s" % (m["want"].get("o") or m["want"].get("a"), "+".join(d)),
+                      "real Stats / RegistrationStats diverge from RegAccounting.tla (as_found) after %s (fields %s)" % (" ; ".join(m["ops"]), d), m)
+    if summ["calls_inside_print"] == 0:
+        raise vlib.InfraError("no behaviour places a counter call inside PrintStats: stage B is vacuous")
+    with open(beh) as f:
+        for i, line in enumerate(f):
+            if i == 1000:
+                ctx.sample({"stage": "B", "object": "Stats+RegistrationStats", "behaviour": [x["a"] + ("(%s)" % x["o"] if "o" in x else "") for x in json.loads(line)]})
+                break
+    ctx.log("B: Stats / RegistrationStats replay: %d behaviours, %d steps, %d mismatches" % (summ["behaviours"], summ["steps"], summ["mismatches"]))
+    ctx.stage("B", regstats=dict(behaviours=summ["behaviours"], steps=summ["steps"], mismatches=summ["mismatches"],
+                                 calls_inside_print=summ["calls_inside_print"], **n))
+    return summ["behaviours"]
+
+
+def reg_hammer_go(ctx, thorough):
+    outp = os.path.join(ctx.scratch, "regacct_hammer.ndjson")
+    res = go_test(ctx, PKG_LIB, LIB_FILES, "lib", "^TestVerifRegAcctHammer$", timeout=600,
+                  env={"VERIF_OUT": outp, "VERIF_ROUNDS": 24 if thorough else 8, "VERIF_REGS": 6000 if thorough else 3000})
+    st = ctx.stall_sites(res)
+    if st:
+        ctx.violation("regstats:hammer:deadlock:%s" % "+".join(st), "PrintStats racing with counter calls hung in %s" % ", ".join(st), {"dump": res["out"][-5000:]})
+        return []
+    if crashed(ctx, res, "regstats:hammer", "Stats / RegistrationStats under concurrent counter calls and PrintStats"):
+        return []
+    rows = ctx.read_results(outp)
+    if not rows:
+        raise vlib.InfraError("registration hammer produced nothing:\n" + res["out"][-3000:])
+    return rows
+
+
+def stage_c_reg(ctx, sdir, rows):
+    if not rows:
+        return 0
+    keys = ("ev", "evc", "rep", "fin", "cur", "inflight")
+    traces = [[dict({"a": "Ledger"}, **{k: r[k] for k in keys})] for r in rows]
+    ok, reached, total, r = validate(ctx, sdir, "Trace_RegAccounting.tla", "Trace_RegAccounting.cfg", traces, timeout=600)
+    unreported = sum(x["unreported"] for x in rows)
+    events = sum(sum(x["evc"].values()) for x in rows)
+    ctx.log("C2: registration ledgers: %d rounds, %d audited events, %d prints, accepted=%s; %d events unreported (as_found windows)"
+            % (len(rows), events, sum(x["prints"] for x in rows), ok, unreported))
+    if not ok:
+        i = max(0, min(len(rows) - 1, (reached - 1) // 2))
+        ctx.violation("regstats:hammer:ledger", "a real concurrent run of Stats / RegistrationStats does not balance at quiescence (round %d): gauges vs valid "
+                      "registrations, totals vs messages, reported + current vs events" % rows[i]["round"], rows[i])
+    for x in rows:
+        if x["unparsable"]:
+            ctx.violation("regstats:hammer:unparsable-line", "PrintStats wrote %d lines that are not in the documented format" % x["unparsable"], x)
+    if ok:
+        bad = copy.deepcopy(traces[:1])
+        bad[0][0]["cur"]["sgen_sum"] += 1
+        ok2, _, _, _ = validate(ctx, sdir, "Trace_RegAccounting.tla", "Trace_RegAccounting.cfg", bad, timeout=300)
+        if ok2:
+            raise vlib.InfraError("binding is vacuous: corrupted registration ledger accepted")
+    ctx.stage("C2", regstats=dict(rounds=len(rows), audited_events=events, prints=sum(x["prints"] for x in rows), accepted=ok, unreported_events=unreported))
+    return len(rows)
+
+
 def run(ctx):
     thorough = ctx.tier == "thorough"
-    sdir = ctx.spec_copy("Accounting")
-    stage_a_conn(ctx, sdir, thorough)
-    nbeh, nontrivial = stage_b_conn(ctx, sdir, thorough)
-    nconn, nout = stage_c_handler(ctx, sdir, thorough)
-    nled = stage_c_hammer(ctx, sdir, thorough)
+    sd = {k: ctx.spec_copy("Accounting") for k in ("a_conn", "a_reg", "nv", "gen_conn", "gen_reg", "c1", "c2", "c2reg")}
+    # TLC work and `go test` work overlap: the go lane (serialised by a lock) starts with the longest job, the real handler
+    with ThreadPoolExecutor(max_workers=8) as pool:
+        f_hgo = pool.submit(handler_go, ctx, thorough)                       # app lane: 5-10 s classification deadlines, mostly idle
+        f_gconn = pool.submit(gen_conn, ctx, sd["gen_conn"], thorough)
+        f_greg = pool.submit(gen_reg, ctx, sd["gen_reg"], thorough)
+        f_aconn = pool.submit(stage_a_conn, ctx, sd["a_conn"], thorough)
+        f_areg = pool.submit(stage_a_reg, ctx, sd["a_reg"], thorough)
+        f_nv = pool.submit(stage_a_nonvacuity, ctx, sd["nv"])
+
+        def lib_lane():
+            n = stage_b_reg(ctx, f_greg.result())
+            return n, stage_c_reg(ctx, sd["c2reg"], reg_hammer_go(ctx, thorough))
+        f_lib = pool.submit(lib_lane)
+        nbeh, nontrivial = stage_b_conn(ctx, f_gconn.result())
+        f_c2 = pool.submit(stage_c_hammer, ctx, sd["c2"], hammer_go(ctx, thorough))
+        nconn = stage_c_handler(ctx, sd["c1"], f_hgo.result())
+        nbeh_reg, nled_reg = f_lib.result()
+        nled = f_c2.result() + nled_reg
+        for f in (f_aconn, f_areg, f_nv):
+            f.result()
+    nbeh += nbeh_reg
     ctx.cov["traces_validated_against_impl"] = nconn + nled
     ctx.cov["evaluations"] = nbeh + nconn + nled
     ctx.cov["distinct_nontrivial"] = nontrivial
@@ -428,5 +649,5 @@ def run(ctx):
         "handler level: the GeoIP answers come from a stub keyed by the peer address; transports and registrations are the real ones",
     ]
     ctx.notes += ["divergences of the code from the intended variant (reported, not violations): " + "; ".join(w for _, _, w in DIVERGENCES)
-                  + "; D5 every conn-stats-verbose row prints c.ipv6.numNewConns / numResolved, IPv4 rows too; D7 a peer close after the first byte is "
+                  + "; " + "; ".join(w for _, _, w in REG_DIVERGENCES) + "; D5 every conn-stats-verbose row prints c.ipv6.numNewConns / numResolved, IPv4 rows too; D7 a peer close after the first byte is "
                   "filed as ReadToError (no readToClose)"]
